@@ -119,6 +119,42 @@ theorem runStream_closed (t0host : Bytes) {sizeMeta : Nat} (hm1 : 1 ≤ sizeMeta
   rw [afterLines_good cfg host strm readRc _ (dom_goodLines readRc hdom)] at h1 h2
   exact ⟨h1, h2⟩
 
+/-- closed form of an ABANDONED stream in the domain: some prefix `x` of what the remote side wrote
+    has been read; the stdio calls are those of the complete lines of `x`, then those of the
+    unterminated rest of `x`; what was not read (`rest`) is not relayed -/
+theorem runAbandoned_closed (t0host : Bytes) {sizeMeta : Nat} (hm1 : 1 ≤ sizeMeta) (hm2 : sizeMeta ≤ 800)
+    {b0 : PBuf} (hb0 : mkFifoBuf sizeMeta = some b0) (script : List Bytes)
+    (hdom : Spec.Dom05 (markerOf readRc) script.flatten = true) :
+    ∃ x rest : Bytes, x ++ rest = script.flatten ∧
+      (runAbandoned fifoOps cfg host t0host strm readRc b0 script).ems =
+        (Spec.lines x).map (fun l => (⟨strm, labelPrefix cfg.labels cfg.keep host ++ l⟩ : Em)) ++
+          tailEms cfg host strm ((Spec.tail x).length + 1) (Spec.tail x) false ∧
+      (∀ b ∈ x, b ≠ 0) := by
+  obtain ⟨hinv0, hq0⟩ := mkFifoBuf_inv sizeMeta b0 hb0
+  have h0 : RunInv cfg host strm readRc sizeMeta []
+      (({ buf := b0, pipe := [], weof := false, closed := false } : Stream PBuf), 0, []) :=
+    ⟨[], rfl, hinv0, by simp [hq0, Spec.split_nil], by simp [afterLines, Spec.split_nil]⟩
+  obtain ⟨h1, _⟩ := feedStep_fifo cfg host strm readRc hm1 hm2 (dom_room hdom) script _ [] (by simp) h0 rfl
+  simp only [runAbandoned]
+  generalize List.foldl (feedStep fifoOps cfg host strm readRc)
+    (({ buf := b0, pipe := [], weof := false, closed := false } : Stream PBuf), 0, []) script = st at h1 ⊢
+  obtain ⟨x, hx, hb, hq, hout⟩ := h1
+  refine ⟨x, st.1.pipe, hx, ?_, fun b hb' => dom_noNul hdom b (by rw [← hx]; simp [hb'])⟩
+  have hnl : ∀ c ∈ st.1.buf.f.q, c ≠ 10 := by rw [hq]; exact Spec.split_rest_noNl _
+  rw [flushOutput_fifo cfg host strm t0host _ _ hnl, hq]
+  -- the lines of the prefix are lines of the whole stream, hence good
+  have hsplit := Spec.split_append x st.1.pipe
+  rw [hx] at hsplit
+  have hgood : ∀ l ∈ (split x).1, GoodLine readRc l := by
+    intro l hl
+    apply dom_goodLines readRc hdom l
+    rw [hsplit]
+    simp [hl]
+  have hal := afterLines_good cfg host strm readRc x hgood
+  have h4 : st.2.2 = (afterLines cfg host strm readRc x).2 := congrArg Prod.snd hout
+  rw [h4, hal]
+  rfl
+
 /-! ### the tail calls on a NUL-free rest -/
 
 /-- bytes of the calls after the label has been written (or with -N): the rest cut every
